@@ -165,6 +165,8 @@ pub fn run(tier: Tier) -> i32 {
                         acc.compared += 1;
                         let i = FirstIn { pdu: &pd, frag_id: 6, pt, label: l, b, may_substitute: prior.may_substitute(l), exts: c, mand: Some(&case_tab) };
                         let (fails, parsed) = wf_first(&i, &out, &buf, sent, &DefaultCrc {});
+                        // bytes behind the packet are the subject of another property (C06), not of this statement
+                        let fails: Vec<(String, String)> = fails.into_iter().filter(|f| f.0 != "write-beyond").collect();
                         for (cl, txt) in &fails {
                             let lastk = if last < 0x0100 { if pt == last { "last-final-mandatory" } else { "last-nonfinal-mandatory" } } else { "last-optional" };
                             let ptk = if pt < 0x0100 { "pt<0x100" } else { "pt>=0x600" };
